@@ -17,93 +17,127 @@ open Boario.Gen
 
 variable {V : Type}
 
-/-- `k` successful steps with values `vals t` -/
+/-- `k` successful steps; step number `j` (taken at time `j * dt`) has the values `vals j` -/
 def okRun (vals : Nat → Rec → V) (k : Nat) : List ((Rec → V) × StepEnd) :=
-  (List.range k).map fun t => (vals t, StepEnd.ok)
-
-theorem okRun_eq (vals : Nat → Rec → V) (k : Nat) : okRun vals k = okRunFrom vals 0 k := by
-  simp [okRun, okRunFrom, List.range_eq_range']
-
-/-- the log and counter after `k` successful steps followed by `rest` -/
-theorem runLog_okRun_append (c : Cfg) (vals : Nat → Rec → V) (k : Nat)
-    (rest : List ((Rec → V) × StepEnd)) :
-    runLog c (okRun vals k ++ rest) 0 emptyLog = runLog c rest k (okLog c vals 0 k emptyLog) := by
-  rw [okRun_eq, runLog_okRunFrom_append, Nat.zero_add]
-
-theorem runLog_okRun (c : Cfg) (vals : Nat → Rec → V) (k : Nat) :
-    runLog c (okRun vals k) 0 emptyLog = (okLog c vals 0 k emptyLog, k) := by
-  have := runLog_okRun_append c vals k []
-  rwa [List.append_nil] at this
+  (List.range k).map fun j => (vals j, StepEnd.ok)
 
 /-- the log after a step that does not end `ok` -/
-theorem runLog_stop (c : Cfg) (v : Rec → V) (e : StepEnd) (he : e ≠ .ok)
+theorem runLog_stop (c : Cfg) (dt : Nat) (v : Rec → V) (e : StepEnd) (he : e ≠ .ok)
     (rest : List ((Rec → V) × StepEnd)) (t : Nat) (log : Log V) :
-    runLog c ((v, e) :: rest) t log = (writeStep c t v e log, t) := by
+    runLog c dt ((v, e) :: rest) t log = (writeStep c t v e log, t) := by
   cases e with
   | ok => exact absurd rfl he
   | crash => rfl
   | excIn ph => rfl
 
-/-- row `t` of every tracked record equals the model's value of that variable at step `t` … -/
-theorem rows_faithful (c : Cfg) (vals : Nat → Rec → V) (k : Nat) (r : Rec) (t : Nat)
-    (ht : t < k) (hr : tracked c r = true) :
-    (runLog c (okRun vals k) 0 emptyLog).1 r t = some (vals t r) := by
-  rw [runLog_okRun]
-  simp [okLog, ht, hr]
+theorem okRun_eq (vals : Nat → Rec → V) (k : Nat) : okRun vals k = okRunFrom vals 0 k := by
+  simp [okRun, okRunFrom, List.range_eq_range']
 
-/-- … rows of steps that were not simulated keep the fill value … -/
-theorem rows_fill (c : Cfg) (vals : Nat → Rec → V) (k : Nat) (r : Rec) (t : Nat) (ht : k ≤ t) :
-    (runLog c (okRun vals k) 0 emptyLog).1 r t = none := by
-  rw [runLog_okRun]
-  simp only [okLog, emptyLog]
-  rw [if_neg]; omega
+/-- `k` successful steps followed by `rest`: `rest` continues at time `k * dt` from the log reached -/
+theorem runLog_okRun_append (c : Cfg) (dt : Nat) (vals : Nat → Rec → V) (k : Nat)
+    (rest : List ((Rec → V) × StepEnd)) :
+    runLog c dt (okRun vals k ++ rest) 0 emptyLog
+      = runLog c dt rest (k * dt) (runLog c dt (okRun vals k) 0 emptyLog).1 := by
+  rw [okRun_eq, runLog_okRunFrom_append, Nat.zero_add]
+
+/-- the time reached after `k` successful steps of length `dt` -/
+theorem run_time (c : Cfg) (dt : Nat) (vals : Nat → Rec → V) (k : Nat) :
+    (runLog c dt (okRun vals k) 0 emptyLog).2 = k * dt := by
+  rw [okRun_eq, runLog_okRunFrom_time, Nat.zero_add]
+
+/-- row `t` of every tracked record equals the model's value of that variable at the step taken at
+    time `t` (step number `j`, time `j * dt`), for every step length … -/
+theorem rows_faithful (c : Cfg) (dt : Nat) (hdt : 0 < dt) (vals : Nat → Rec → V) (k : Nat) (r : Rec) (j : Nat)
+    (hj : j < k) (hr : tracked c r = true) :
+    (runLog c dt (okRun vals k) 0 emptyLog).1 r (j * dt) = some (vals j r) := by
+  have := runLog_okRunFrom_row c dt hdt vals k 0 0 emptyLog r j hj hr
+  rw [okRun_eq]
+  simpa using this
+
+/-- … rows of temporal units at which no step was simulated keep the fill value (rows after the end
+    of the run, and with `dt > 1` the rows between two steps) … -/
+theorem rows_fill (c : Cfg) (dt : Nat) (vals : Nat → Rec → V) (k : Nat) (r : Rec) (t : Nat)
+    (ht : ∀ j, j < k → t ≠ j * dt) :
+    (runLog c dt (okRun vals k) 0 emptyLog).1 r t = none := by
+  rw [okRun_eq, runLog_okRunFrom_other]
+  · rfl
+  · intro j hj
+    rw [Nat.zero_add]
+    exact ht j hj
 
 /-- … an untracked record (stocks without `register_stocks`) is never written … -/
-theorem untracked_never_written (c : Cfg) (steps : List ((Rec → V) × StepEnd)) (r : Rec) (t : Nat)
-    (hr : tracked c r = false) : (runLog c steps 0 emptyLog).1 r t = none := by
-  exact runLog_untracked c r hr steps 0 emptyLog (fun _ => rfl) t
+theorem untracked_never_written (c : Cfg) (dt : Nat) (steps : List ((Rec → V) × StepEnd)) (r : Rec) (t : Nat)
+    (hr : tracked c r = false) : (runLog c dt steps 0 emptyLog).1 r t = none := by
+  exact runLog_untracked c dt r hr steps 0 emptyLog (fun _ => rfl) t
 
 /-- … and all of this is independent of which records are kept in files (storage mode, subset saved) -/
-theorem storage_independent (c c' : Cfg) (h : c.registerStocks = c'.registerStocks)
+theorem storage_independent (c c' : Cfg) (dt : Nat) (h : c.registerStocks = c'.registerStocks)
     (steps : List ((Rec → V) × StepEnd)) :
-    runLog c steps 0 emptyLog = runLog c' steps 0 emptyLog := by
-  exact runLog_congr c c' h steps 0 emptyLog
+    runLog c dt steps 0 emptyLog = runLog c' dt steps 0 emptyLog := by
+  exact runLog_congr c c' dt h steps 0 emptyLog
 
-/-- when a run stops early (crash flag or exception at step `k`), the rows already written stay
-    intact, later rows keep the fill value, and row `k` holds for each record either its value of
-    that step or the fill value -/
-theorem early_stop_intact (c : Cfg) (vals : Nat → Rec → V) (k : Nat) (e : StepEnd) (he : e ≠ .ok)
-    (rest : List ((Rec → V) × StepEnd)) (r : Rec) (hr : tracked c r = true) :
-    let log := (runLog c (okRun vals k ++ (vals k, e) :: rest) 0 emptyLog).1
-    (∀ t, t < k → log r t = some (vals t r)) ∧ (∀ t, k < t → log r t = none) ∧
-    (log r k = some (vals k r) ∨ log r k = none) ∧
-    (runLog c (okRun vals k ++ (vals k, e) :: rest) 0 emptyLog).2 = k := by
+/-- when a run stops early (crash flag or exception at step number `k`), the rows already written stay
+    intact, all other rows keep the fill value, and row `k * dt` holds for each record either its value
+    of that step or the fill value -/
+theorem early_stop_intact (c : Cfg) (dt : Nat) (hdt : 0 < dt) (vals : Nat → Rec → V) (k : Nat) (e : StepEnd)
+    (he : e ≠ .ok) (rest : List ((Rec → V) × StepEnd)) (r : Rec) (hr : tracked c r = true) :
+    let log := (runLog c dt (okRun vals k ++ (vals k, e) :: rest) 0 emptyLog).1
+    (∀ j, j < k → log r (j * dt) = some (vals j r)) ∧
+    (∀ t, (∀ j, j ≤ k → t ≠ j * dt) → log r t = none) ∧
+    (log r (k * dt) = some (vals k r) ∨ log r (k * dt) = none) ∧
+    (runLog c dt (okRun vals k ++ (vals k, e) :: rest) 0 emptyLog).2 = k * dt := by
   intro log
-  have hlog : log = writeStep c k (vals k) e (okLog c vals 0 k emptyLog) := by
-    simp only [log, runLog_okRun_append, runLog_stop c (vals k) e he]
+  have hlog : log = writeStep c (k * dt) (vals k) e (runLog c dt (okRun vals k) 0 emptyLog).1 := by
+    simp only [log, runLog_okRun_append, runLog_stop c dt (vals k) e he]
   refine ⟨?_, ?_, ?_, ?_⟩
+  · intro j hj
+    rw [hlog]
+    have h1 : j * dt ≠ k * dt := fun h => by
+      have := Nat.eq_of_mul_eq_mul_right hdt h
+      omega
+    simp only [writeStep, h1, false_and, if_false]
+    exact rows_faithful c dt hdt vals k r j hj hr
   · intro t ht
     rw [hlog]
-    have : t ≠ k := by omega
-    simp [writeStep, okLog, this, ht, hr]
-  · intro t ht
-    rw [hlog]
-    have h1 : t ≠ k := by omega
-    have h2 : ¬ t < k := by omega
-    simp [writeStep, okLog, emptyLog, h1, h2]
+    have h1 : t ≠ k * dt := ht k (Nat.le_refl k)
+    simp only [writeStep, h1, false_and, if_false]
+    exact rows_fill c dt vals k r t (fun j hj => ht j (Nat.le_of_lt hj))
   · rw [hlog]
     by_cases hw : written e (phaseOf r) = true
     · left; simp [writeStep, hr, hw]
-    · right; simp [writeStep, okLog, emptyLog, hw]
-  · simp only [runLog_okRun_append, runLog_stop c (vals k) e he]
+    · right
+      have hfill : (runLog c dt (okRun vals k) 0 emptyLog).1 r (k * dt) = none := by
+        refine rows_fill c dt vals k r (k * dt) (fun j hj h => ?_)
+        have := Nat.eq_of_mul_eq_mul_right hdt h
+        omega
+      simp [writeStep, hw, hfill]
+  · simp only [runLog_okRun_append, runLog_stop c dt (vals k) e he]
 
 /-- a crash (negative inventory during distribution) leaves the records of the earlier phases of the
     crashing step written and those of the distribution phase at their fill value -/
-theorem crash_row (c : Cfg) (vals : Nat → Rec → V) (k : Nat) (r : Rec) (hr : tracked c r = true) :
-    (runLog c (okRun vals k ++ [(vals k, StepEnd.crash)]) 0 emptyLog).1 r k
+theorem crash_row (c : Cfg) (dt : Nat) (hdt : 0 < dt) (vals : Nat → Rec → V) (k : Nat) (r : Rec)
+    (hr : tracked c r = true) :
+    (runLog c dt (okRun vals k ++ [(vals k, StepEnd.crash)]) 0 emptyLog).1 r (k * dt)
       = if phaseOf r = .distribution then none else some (vals k r) := by
-  rw [runLog_okRun_append, runLog_stop c (vals k) _ (by decide)]
-  cases r <;> simp [writeStep, okLog, emptyLog, hr, written, phaseOf, Phase.idx]
+  rw [runLog_okRun_append, runLog_stop c dt (vals k) _ (by decide)]
+  have hfill : (runLog c dt (okRun vals k) 0 emptyLog).1 r (k * dt) = none := by
+    refine rows_fill c dt vals k r (k * dt) (fun j hj h => ?_)
+    have := Nat.eq_of_mul_eq_mul_right hdt h
+    omega
+  cases r <;> simp [writeStep, hfill, hr, written, phaseOf, Phase.idx]
+
+/-- driving the simulation one step at a time or through the loop is the same list of steps: the log
+    of a run is the log of its first `i` steps continued with the remaining ones -/
+theorem stepwise_eq_loop (c : Cfg) (dt : Nat) (vals : Nat → Rec → V) (i k : Nat) (hi : i ≤ k) :
+    runLog c dt (okRun vals k) 0 emptyLog
+      = runLog c dt ((List.range' i (k - i)).map fun j => (vals j, StepEnd.ok)) (i * dt)
+          (runLog c dt (okRun vals i) 0 emptyLog).1 := by
+  have h := runLog_okRunFrom_append c dt vals i 0 0 emptyLog (okRunFrom vals i (k - i))
+  have h2 := okRunFrom_append vals 0 i (k - i)
+  rw [Nat.zero_add] at h2
+  rw [h2, Nat.add_sub_cancel' hi, Nat.zero_add] at h
+  rw [okRun_eq, okRun_eq, h]
+  rfl
 
 /-! ### regenerated from the source: the write guards and tables of `Simulation` -/
 
